@@ -41,7 +41,7 @@ pub fn run(args: &Args, rep: &mut Report) {
     let widths: Vec<(u8, u64)> = if thorough { vec![(12, 1), (16, 1), (32, 1)] } else { vec![(12, 2), (16, 12), (32, 12)] };
     rep.extra.push(("alphabet_size".into(), J::u(n)));
     for (fat, sample) in widths {
-        let vc = VolCfg { fat, bps: 512, spc: 1, nfats: 2, root_entries: if fat == 32 { 0 } else { 32 }, clusters: match fat { 12 => 64, 16 => 4090, _ => 65530 }, extra: 0, garbage: true, slack: 0 };
+        let vc = VolCfg { fat, bps: 512, spc: 1, nfats: 2, root_entries: if fat == 32 { 0 } else { 32 }, clusters: match fat { 12 => 64, 16 => 4090, _ => 65530 }, extra: 0, garbage: true, slack: 0, used_device: false };
         let Ok((img, vb)) = cache.get(&vc) else { continue };
         let class = fnv_of(&[&vc.class(), "enum"]);
         let mut scfg = SessCfg::all(unicode_build());
